@@ -140,6 +140,8 @@ def fbmc_case(draw):
         "steps": draw(st.integers(3, 40)),
         "seed": draw(st.integers(1, 2 ** 31)),
         "power": draw(st.sampled_from([0.25, 0.0, 0.5, 1.0])),
+        # scaling masses different from the atoms' own, set through the public update_masses()
+        "custom_masses": draw(st.one_of(st.none(), st.lists(fl(1, 200), min_size=n, max_size=n))),
     }
     return case
 
@@ -171,6 +173,9 @@ def run_fbmc(case):
             else:
                 mc = AdaptiveForceBias(atoms, min_delta=case["delta"] * 0.5, max_delta=case["delta"], temperature=case["T"], seed=case["seed"])
             mc.masses_scaling_power = case["power"]
+            if case.get("custom_masses"):
+                mc.update_masses(np.array(case["custom_masses"], dtype=float))
+                labels.append("custom-scaling-masses")
             for _ in mc.irun(case["steps"]):
                 prev = atoms.positions.copy()
                 # the step has not run yet at the yield of irun; check the state left by the previous one
